@@ -20,7 +20,7 @@ import numpy as np
 
 from acnportal.acnsim import Simulator
 
-from mc.core import Acc
+from mc.core import Acc, guard
 from mc import simspace as S
 
 ID = "C09"
@@ -305,6 +305,7 @@ def run_plan(scn, hist, plan):
         except Crash:
             raise
         except Exception as exc:
+            guard(exc)
             d.viol.append(("exception:%s" % type(exc).__name__, "continuation raised %r" % (exc,), repr(exc), None))
             d.sim = None
     return d
